@@ -52,11 +52,6 @@ def plan(tier: str, seed: int):
 def _plan_nothreads(tier: str, seed: int):
     rounds = 1 if tier == "quick" else 6
     return _plan(tier, seed) + [
-        # under NUMBA_DISABLE_JIT=1 (numpy scalar arithmetic in the storage
-        # types instead of machine integers)
-        {"name": "py0", "engine": "py", "timeout": 3000,
-         "args": {"mode": "decode", "n": 60 if tier == "quick" else 1500,
-                  "part": 0, "parts": 1}}] + [
         {"name": f"suite{i}", "engine": "jit", "timeout": 3000,
          "args": {"mode": "suite", "tests": SUITE_TESTS,
                   "domains": SUITE_DOMAINS, "rounds": rounds}}
